@@ -360,9 +360,17 @@ impl<'a> Run<'a> {
       Some(Some(3)),
       Some(Some(4)),
     ];
+    // the query may be handed over as text, as a parsed DID URL, or as the relative part of one (`#fragment`)
+    let query_form = ctx::choose(3);
     for q in &queries {
+      let parsed: Option<DIDUrl> = if q.starts_with("did:") { DIDUrl::parse(q).ok() } else { None };
       for sc in scopes.iter() {
-        let got = core.resolve_method(q.as_str(), sc.map(to_scope));
+        let (got, q_effective): (Option<&VerificationMethod>, String) = match (query_form, &parsed) {
+          (1, Some(u)) => (core.resolve_method(u, sc.map(to_scope)), q.clone()),
+          (2, Some(u)) => (core.resolve_method(u.url(), sc.map(to_scope)), format!("#{}", u.fragment().unwrap_or(""))),
+          _ => (core.resolve_method(q.as_str(), sc.map(to_scope)), q.clone()),
+        };
+        let q = &q_effective;
         let cands = model.resolve_method_candidates(q, *sc);
         let ok = cands.iter().any(|c| match (c, got) {
           (None, None) => true,
@@ -1178,8 +1186,9 @@ impl<'a> Run<'a> {
   }
 }
 
+// (the second fragment begins with the letters of the DID scheme: a fragment is whatever follows '#')
 const FRAGS: [&str; 32] = [
-  "a", "b", "c", "d", "e", "f", "g", "h", "i", "j", "k", "l", "m", "n", "o", "p", "q", "r", "s", "t", "u", "v", "w", "x", "y", "z", "aa",
+  "a", "didcomm", "c", "d", "e", "f", "g", "h", "i", "j", "k", "l", "m", "n", "o", "p", "q", "r", "s", "t", "u", "v", "w", "x", "y", "z", "aa",
   "ab", "ac", "ad", "ae", "af",
 ];
 
